@@ -1,5 +1,6 @@
 """C03 - taste accepts every well-formed plotfile under every option set."""
 import itertools
+import os
 import random
 import warnings
 import numpy as np
@@ -113,8 +114,13 @@ def run_case(seed):
     img, data_wf = nan_aware_image(pf, fixed)
     path = core.scratch_dir(f"c03_{seed}")
     diskimg.write_image(img, path)
+    # the directory as a user may spell it: trailing separators, relative to the working directory
+    r2 = random.Random(seed * 151 + 9)
+    spelling = r2.choice(['{p}', '{p}', '{p}/', '{p}//', '{rel}', './{rel}/'])
+    spath = spelling.format(p=path, rel=os.path.relpath(path, os.getcwd()))
     img_sx = diskimg.image_sx(img)
     close = tc.close_table(img)
+    count(f"path spelling={spelling}")
     count(f"ndims={pf.ndims}")
     count(f"levels={pf.nlevels}")
     count(f"geo={pf.meta['geo']}")
@@ -129,7 +135,7 @@ def run_case(seed):
             mgood = mall[k]
             for nofail in (True, False):
                 core.set_policy(rng.choice(['identity', 'reverse', 'random']), seed)
-                verdict, detail = tc.impl_taste(path, limit, opts, nofail)
+                verdict, detail = tc.impl_taste(spath, limit, opts, nofail)
                 out['evals'] += 1
                 count(f"verdict={verdict}")
                 count(f"reaches data check={reaches_data_check(opts)}")
